@@ -15,13 +15,17 @@ Record ostate := mkO {
   o_sel : option N;           (* refresh mode last selected *)
   o_ref : cstate;             (* controller right after construction *)
   o_dirty : bool;             (* a setting that init honours was changed since construction *)
-  o_n : N                     (* 0 right after construction, 1 once a call has been observed *)
+  o_n : N;                    (* 0 right after construction, 1 once a call has been observed *)
+  o_upd : bool                (* a full-frame image has been sent since construction / the last wake-up *)
 }.
 
-Definition colour_byte (P : pspec) (c : N) : N :=
+(** the byte a frame uniformly painted in colour [c] holds in the primary plane.  Seven-colour
+    panels: the nibble pair; black/white: 0x00/0xFF; the chromatic colour of a three-colour type:
+    no expectation (its black/white-plane bit depends on the buffer type's BWRBIT) *)
+Definition colour_byte (P : pspec) (c : N) : option N :=
   match length (ps_colors P) with
-  | 8%nat => c * 16 + c
-  | _ => if c =? 1 then 255 else 0
+  | 8%nat => Some (c * 16 + c)
+  | _ => if c =? 1 then Some 255 else if c =? 0 then Some 0 else None
   end.
 Definition enc_byte (g : bytefn) (v : N) : N := hd 0 (bapply g v).
 
@@ -84,10 +88,14 @@ Definition observe (P : pspec) (sm : sem) (lref : N -> list (N * list N)) (isig 
     | Some en => tag full_prop (chk_c01 P sm k en es)
     | None =>
         match o with
-        | ODisplay => tag 1 (chk_display es)
+        | ODisplay =>
+            (* "a display call THEN triggers exactly one refresh": the count is claimed once an image
+               has been sent since the last (re)initialisation; "sends no image data" always *)
+            tag 1 (if o_upd os then chk_display es
+                   else flat_map (fun e => match burst_cmd e with Some c => [ClOtherPlane c] | None => [] end) es)
         | OClear =>
             match primary P with
-            | Some t => tag 7 (chk_c07 P sm (t_cmd t) (Some (enc_byte (t_enc t) (colour_byte P (o_bg os)))) es)
+            | Some t => tag 7 (chk_c07 P sm (t_cmd t) (option_map (enc_byte (t_enc t)) (colour_byte P (o_bg os))) es)
             | None => []
             end
         | OSleep => tag 8 (chk_sleep P es)
@@ -128,10 +136,15 @@ Definition observe (P : pspec) (sm : sem) (lref : N -> list (N * list N)) (isig 
   let bg' := match o with OSetBg c => c | _ => o_bg os end in
   let sel' := sel_of (o_sel os) [o] in
   let dirty' := o_dirty os || match o with OSetLut (Some _) | OSetRefresh _ => true | _ => false end in
-  (mkO c1 bg' sel' (o_ref os) dirty' 1, fails).
+  let upd' := match o with
+              | OWakeUp => false
+              | OClear => true
+              | _ => if existsb (fun en => if op_eq_dec (en_op en) o then true else false) (ps_entries P) then true else o_upd os
+              end in
+  (mkO c1 bg' sel' (o_ref os) dirty' 1 upd', fails).
 
 (** the constructor: start of an observation *)
 Definition observe_new (P : pspec) (isig : list N) (bg0 : N) (ic : list icall) : ostate * list (N * clause) :=
   let '(c1, es) := ccall (ps_cp P) (por (ps_cp P)) ic in
-  (mkO c1 bg0 None c1 false 0,
+  (mkO c1 bg0 None c1 false 0 false,
    tag 5 (chk_c05 es) ++ tag 18 (chk_c18 P es) ++ tag 11 (chk_wake_reset ic) ++ tag 11 (chk_resets ic)).
